@@ -1,11 +1,13 @@
 package blockstore
 
 import (
+	"bytes"
 	"context"
 	"errors"
 
 	"github.com/ipfs/go-cid"
 	carv2 "github.com/ipld/go-car/v2"
+	"github.com/ipld/go-car/v2/index"
 	"github.com/ipld/go-car/v2/storage"
 )
 
@@ -43,12 +45,33 @@ func VerifH_C09_StoreHeaderLimits() {
 	maxS := vU64("maxSection")
 	vAssume(maxH < 1<<32 && maxS >= 16 && maxS < 1<<32)
 	payload := vPayload(hdr, []vSection{sec})
-	isV2 := vChoose("v2", 2) == 1
+	shape := vChoose("shape", 3) // bare CARv1, index-less CARv2, CARv2 with its index
+	isV2 := shape != 0
 	file := payload
 	tooLarge := L > maxH
 	if isV2 {
 		file = vArchiveV2Indexless(payload)
 		tooLarge = 10 > maxH || L > maxH
+	}
+	if shape == 2 {
+		idx := index.NewMultihashSorted()
+		if err := idx.Load([]index.Record{{Cid: sec.c, Offset: uint64(len(hdr))}}); err != nil {
+			panic("index load")
+		}
+		var ib bytes.Buffer
+		if _, err := index.WriteTo(idx, &ib); err != nil {
+			panic("index write")
+		}
+		var buf bytes.Buffer
+		buf.Write(carv2.Pragma)
+		h := carv2.Header{DataOffset: uint64(carv2.PragmaSize + carv2.HeaderSize), DataSize: uint64(len(payload))}
+		h.IndexOffset = h.DataOffset + h.DataSize
+		if _, err := h.WriteTo(&buf); err != nil {
+			panic("header write")
+		}
+		buf.Write(payload)
+		buf.Write(ib.Bytes())
+		file = buf.Bytes()
 	}
 	opts := []carv2.Option{carv2.MaxAllowedHeaderSize(maxH), carv2.MaxAllowedSectionSize(maxS)}
 	want := vErrHeaderTooLarge()
